@@ -21,7 +21,7 @@ rm -f "$WT/$dest"
 ( cd "$WT" && GOFLAGS= go test -vet=off -count=1 ./openflow13/ ./protocol/ ) >/dev/null 2>&1; suite=$?
 cp -r /verif/harness "$VV/harness"; ln -s /verif/known_findings.json "$VV/known_findings.json"
 t0=$(date +%s)
-/verif/bin/symgo check -prop "$P" -tier "$TIER" -repo "$WT" -verif "$VV" > "$VV/out.txt" 2> "$VV/err.txt"; rc=$?
+/verif/bin/symgo check -j ${MUT_J:-16} -prop "$P" -tier "$TIER" -repo "$WT" -verif "$VV" > "$VV/out.txt" 2> "$VV/err.txt"; rc=$?
 t1=$(date +%s)
 nviol=$(grep -c '^VIOLATION' "$VV/out.txt")
 echo "RESULT $P $(basename $M) clean_demo=$clean_demo build=$build mutant_demo=$mut_demo suite=$suite check_exit=$rc violations=$nviol secs=$((t1-t0))"
